@@ -262,10 +262,14 @@ CLAIMS["C10"] = (
     "exactly the same table -> slice map (nested loop invariants, any number of slices and tables): every listed table belongs to exactly one "
     "slice and the mapping follows the locations. HashShard / ModShard.FindForKey name only listed tables (0 <= index < ShardNum for every "
     "key; ModShard fixed for math.MinInt64). verifyDefaultSlice: an accepted default slice is one of the namespace's slices (recorded finding: "
-    "an empty default_slice is accepted although NewRouter rejects it); includeSlice (both packages) is exact membership.",
+    "an empty default_slice is accepted although NewRouter rejects it); includeSlice (both packages) is exact membership. The mycat and "
+    "global-table variants of the parser (parseMycatHashRuleSliceInfos, parseGlobalTableRuleSliceInfos) return exactly the hash layout "
+    "and succeed only if the number of tables equals the number of physical databases named (global tables: when a database list is "
+    "given). Negative PartitionByLong parameters (accepted by the validator, crashing the load) were repaired in /repo (7d1fd02).",
     "Assumed: configuration size bounds (<= 1024 slices, <= 2^20 tables per slice); psum is specified by two definitional axioms over the "
     "list at function entry (the functions never write it). NOT under contract: NewRouter / parseRule as a whole (rule-type dispatch, "
-    "case-folding of table names, linked-rule parent lookup), the calendar and mycat rule parsers, database-list expansion (regexp), "
+    "case-folding of table names, linked-rule parent lookup), the calendar rule parsers, MycatPartitionLongShard.Init and the validator's copy of it, database-list expansion (regexp: an "
+    "uninterpreted count), "
     "Namespace.Verify's other checks (users, charset, allow-lists): 'accepted configurations load' is decided for the layout kernel only.",
     "DESIGN.md section 4, C10")
 
